@@ -231,6 +231,29 @@ def linear(ctx):
     ctx.check("R07.1", "LeakyReLU:slope-immutable", not wr, "leaky-slope-written", "crate", "alpha is never written after construction")
 
 
+def softmax_backward_shape(ctx):
+    """R07.3 for Softmax::backward (E6): every result is `Tensor::single(v).reshape(<the parameter's own shape>)` with v holding one value per
+    probability of `self.forward(<the parameter>)` - so the output has the input's shape for flat and 3-D inputs alike."""
+    from .. import e6
+    c = ctx.crate
+    fn = ctx.fn(ACT + "Softmax::backward")
+    inp = pat_binds(fn["params"][1])[0][0]
+    E = e6.Exec(c, fn)
+    live = [p for p in E.run_fn() if p.exit is None or p.exit[0] == "return"]
+    ok = bool(live)
+    why = ""
+    for P in live:
+        val = e6.strip_upd(P.val if P.exit is None else P.exit[1])
+        r = e6.is_call(val, "reshape", 2)
+        sh = r[1] if r is not None else None
+        while sh is not None and e6.is_call(sh, "clone", 1):
+            sh = e6.is_call(sh, "clone", 1)[0]
+        if r is None or sh != ("field", ("p", inp), "shape"):
+            ok, why = False, "result is %s" % e6.show(val, 3)[:120]
+    ctx.check("R07.3", "Softmax::backward:shape", ok, "output-shape-not-input-dims:" + __import__("re").sub(r"#\w+", "", short(why, 60)), c.loc(fn), "Tensor::single(derivative).reshape(logits.shape)",
+              "Softmax::backward: %s; the result must carry the shape of the tensor it was given" % why)
+
+
 def softmax(ctx):
     """R07.5 on the E6 effect summary of Softmax::forward (independent of statement layout, names, helper extraction, loop idiom)."""
     from .. import e6
@@ -375,6 +398,7 @@ def run(ctx):
             ctx.guard("R07.2", kind, derivative, ctx, kind, res["forward"][1], res["backward"][1])
     ctx.guard("R07.1", "Linear", linear, ctx)
     ctx.guard("R07.5", "softmax", softmax, ctx)
+    ctx.guard("R07.3", "softmax-backward-shape", softmax_backward_shape, ctx)
     ctx.guard("R07.6", "dispatch", dispatch, ctx)
     ctx.floor("R07.1", 16 + 6, "16 arms + identity/ones/slope facts")
     ctx.floor("R07.2", 4, "four differentiable activations")
